@@ -41,6 +41,7 @@ from sqlfluff.core import (
     dialect_selector,
 )
 from sqlfluff.core.config import progress_bar_configuration
+from sqlfluff.core.errors import SQLFluffSkipFile
 from sqlfluff.core.linter import LintingResult, ParsedString
 from sqlfluff.core.linter.linted_file import TMP_PRS_ERROR_TYPES
 from sqlfluff.core.plugin.host import get_plugin_manager
@@ -1871,7 +1872,14 @@ def render(
             fname = "stdin"
             file_config = lnt.config
         else:
-            raw_sql, file_config, _ = lnt.load_raw_file_and_config(path, lnt.config)
+            try:
+                raw_sql, file_config, _ = lnt.load_raw_file_and_config(
+                    path, lnt.config
+                )
+            except SQLFluffSkipFile as skip_file_err:
+                # e.g. the file is over the large file limit.
+                click.echo(str(skip_file_err), err=True)
+                sys.exit(EXIT_FAIL)
             fname = path
 
         # Get file specific config
